@@ -446,6 +446,34 @@ func genC17(t *rapid.T) c17Case {
 		}
 		return s
 	}
+	// hex digits in a conventional layout: grouped by blanks or separators, wrapped over lines, ending in a line break, with
+	// a 0x in front — any number of decorations, so that what is left after a reader removed them has any length and parity
+	decorate := func(s string) string {
+		switch rapid.IntRange(0, 3).Draw(t, "decoK") {
+		case 0: // grouped every 2 / 4 / 8 digits
+			g := rapid.SampledFrom([]int{2, 4, 8}).Draw(t, "decoG")
+			sep := rapid.SampledFrom([]string{" ", ":", "_", "\n", "\r\n", "\t", "  "}).Draw(t, "decoS")
+			var sb strings.Builder
+			for i := 0; i < len(s); i++ {
+				if i > 0 && i%g == 0 {
+					sb.WriteString(sep)
+				}
+				sb.WriteByte(s[i])
+			}
+			return sb.String()
+		case 1: // a line end (or several blanks) after the digits
+			return s + rapid.SampledFrom([]string{"\n", "\r\n", "  ", " \n", "\t\t", "\r\n\r\n"}).Draw(t, "decoT")
+		case 2: // blanks in front and behind
+			return rapid.SampledFrom([]string{" ", "  ", "\t", "\n"}).Draw(t, "decoL") + s + rapid.SampledFrom([]string{" ", "  ", "\n", "\r\n"}).Draw(t, "decoR")
+		default: // 1..4 decorations at arbitrary places
+			n := rapid.IntRange(1, 4).Draw(t, "decoN")
+			for i := 0; i < n; i++ {
+				k := rapid.IntRange(0, len(s)).Draw(t, "decoAt")
+				s = s[:k] + rapid.SampledFrom([]string{" ", "\n", "\r", "\t", ":", "_"}).Draw(t, "decoC") + s[k:]
+			}
+			return s
+		}
+	}
 	switch c.Fn {
 	case "To8ByteBigEndian":
 		c.U = u64()
@@ -469,7 +497,9 @@ func genC17(t *rapid.T) c17Case {
 		c.S = []byte(drawDigits(t, hexDigits, 0, 40, "hx"))
 		c.N = rapid.SampledFrom([]int{0, 1, 4, 8, 16, 20, 128, len(c.S) / 2, len(c.S)/2 + 1}).Draw(t, "size")
 	case "ParseHexTimestamp":
-		switch rapid.IntRange(0, 3).Draw(t, "tsK") {
+		switch rapid.IntRange(0, 4).Draw(t, "tsK") {
+		case 4:
+			c.S = []byte(decorate(drawDigits(t, hexDigits, 1, 16, "tsDeco")))
 		case 0:
 			c.S = []byte(fmt.Sprintf("%x", u64()))
 		case 1:
@@ -481,7 +511,9 @@ func genC17(t *rapid.T) c17Case {
 		}
 	case "HexInputToOCRA":
 		for i := range c.F {
-			switch rapid.IntRange(0, 5).Draw(t, "fK") {
+			switch rapid.IntRange(0, 6).Draw(t, "fK") {
+			case 6:
+				c.F[i] = decorate(drawDigits(t, hexDigits, 1, 40, "fDeco"))
 			case 0:
 				c.F[i] = ""
 			case 1:
